@@ -139,3 +139,40 @@ func HarnessReconcileOnSubscribed() {
 	vrt.Assert(len(w.caller.reconciles) == 1 && w.caller.reconciles[0] == 0, "every-subscription-asks-for-an-implicit-reconciliation")
 	vrt.Reach("asked")
 }
+
+// The same decision one step earlier, from where Mesos' UPDATE events enter the core: the scheduler's status-update
+// handler hands EVERY update - whatever the task state, reconciliation answer or not - to the task manager, which is
+// the one that decides about the KILL; an answer about a leftover task that is still staging or starting ends in a
+// KILL like one about a running task. (TASK_FINISHED is left out: the handler counts it in a metrics registry that
+// does not exist here; it is terminal and never killed.)
+//verif:entry HarnessStatusUpdatesReachTheTaskManager unwind=16 preempt=0 reach=killed,not-killed stub=github.com/AliceO2Group/Control/common/utils.TimeTrack
+func HarnessStatusUpdatesReachTheTaskManager() {
+	other, _ := ftTask("other", uid.ID("2oDvieFrVTi"), true)
+	w := ftManager(Tasks{other}, nil)
+	w.m.MessageChannel = make(chan *TaskmanMessage, 4)
+	state := c18States[vrt.IntRange("mesos.state", 0, len(c18States)-1)]
+	vrt.Assume(state != mesos.TASK_FINISHED)
+	reconciliation := vrt.Bool("reason.reconciliation")
+	status := mesos.TaskStatus{TaskID: mesos.TaskID{Value: "task-x"}, State: &state}
+	if reconciliation {
+		r := mesos.REASON_RECONCILIATION
+		status.Reason = &r
+	}
+	err := w.m.schedulerState.statusUpdate()(context.Background(), &scheduler.Event{Type: scheduler.Event_UPDATE, Update: &scheduler.Event_Update{Status: status}})
+	vrt.Assert(err == nil, "status-update-is-handled")
+	select {
+	case msg := <-w.m.MessageChannel:
+		vrt.Assert(msg.status.GetState() == state && msg.status.TaskID.Value == "task-x", "the-task-manager-gets-the-update-as-it-came")
+		vrt.Assert(w.m.handleMessage(msg) == nil, "status-update-is-handled")
+	default:
+		vrt.Assert(false, "every-status-update-is-handed-to-the-task-manager")
+	}
+	alive := state == mesos.TASK_STAGING || state == mesos.TASK_STARTING || state == mesos.TASK_RUNNING || state == mesos.TASK_KILLING || state == mesos.TASK_UNKNOWN
+	if reconciliation && alive {
+		vrt.Assert(w.caller.killed("task-x") == 1, "leftover-task-reported-alive-by-reconciliation-is-killed-exactly-once")
+		vrt.Reach("killed")
+	} else if c18Terminal(state) || !reconciliation {
+		vrt.Assert(w.caller.killed("task-x") == 0, "terminal-task-is-not-killed")
+		vrt.Reach("not-killed")
+	}
+}
